@@ -63,6 +63,7 @@ Judge(e) ==
        \o When(e.opennil \/ ~e.openeq, "Open(Seal(m)) is not m")
        \o When(~e.exsigeq, "ExtractSignature(Seal(m)) is not Sign(m)")
        \o When(~e.exmsgeq, "ExtractMessage(Seal(m)) is not m")
+       \o When(~e.sealsigeq, "Seal(m) does not begin with Sign(m)")
        \o When(~e.msgintact, "signing modified the caller's message")
 
 DriftOf(e) ==
